@@ -185,3 +185,35 @@ Definition slider_ok (h : HitObject) (s : Slider) (d : F64) : bool :=
   negb (d13_class (sl_control_points s)) && negb (d17_class (sl_control_points s)) &&
   negb (consec_catmull (sl_control_points s)) &&
   len_ok d.
+
+(* ---------- the [HitObjects] section ---------- *)
+
+(* what the line theorems ask of an object: [object_ok] for circles, spinners and holds,
+   [slider_ok] (for the length the encoder writes) for sliders *)
+Definition encodable (dist_of : Z -> list PCP -> option F64 -> outcome F64) (h : HitObject) : Prop :=
+  match h_kind h with
+  | KSlider s => exists d, written_len dist_of s = Done d /\ slider_ok h s d = true
+  | _ => object_ok h = true
+  end.
+
+(* what holds of EVERY object an accepted hit-object line adds (Proofs/EncLineImage.v):
+   the line-level part of [object_ok] / [slider_ok].  Not part of it -- because they do not
+   hold of every accepted line or are decided later, at map level: the sample data
+   ([sample_ok]), start + duration within the parse limits (class D26), the computed
+   length of a slider without explicit length (class D21), the classes D13 / D17 /
+   consecutive Catmull. *)
+Definition line_image (h : HitObject) : bool :=
+  in_lim64 (h_start h) &&
+  match h_kind h with
+  | KCircle c => coord_ok (px (ci_pos c)) && coord_ok (py (ci_pos c)) &&
+                 (0 <=? ci_combo_offset c) && (ci_combo_offset c <=? 7)
+  | KSlider s =>
+      coord_ok (px (sl_pos s)) && coord_ok (py (sl_pos s)) &&
+      (0 <=? sl_combo_offset s) && (sl_combo_offset s <=? 7) &&
+      path_image (sl_pos s) (sl_control_points s) &&
+      (0 <=? sl_repeat_count s) && (sl_repeat_count s <? repeat_cap) &&
+      match sl_expected_dist s with Some d => len_ok d | None => true end &&
+      (Z.of_nat (length (sl_node_samples s)) =? sl_repeat_count s + 2)
+  | KSpinner s => coord_ok (px (sp_pos s)) && coord_ok (py (sp_pos s))
+  | KHold hd => coord_ok (hd_pos_x hd)
+  end.
